@@ -12,7 +12,7 @@
 //!   prefix 0 = "record_", 1 = "pair_", -1 = anything else.
 use ibv::{Emitter, SplitMix64, Tier, drive};
 use ironbeam::validation::{
-    ErrorCollector, Validate, ValidationError, ValidationMode, ValidationResult,
+    ErrorCollector, RecordError, Validate, ValidationError, ValidationMode, ValidationResult,
     combine_validations,
 };
 use ironbeam::{PCollection, Pipeline, from_vec};
@@ -94,15 +94,34 @@ fn collector_json(c: &Arc<Mutex<ErrorCollector>>) -> (Value, i64) {
     (Value::Array(arr), g.error_count() as i64)
 }
 
+/// how a collection is collected: 0 collect_seq | 1 collect_par(Some(t), Some(n)) |
+/// 2 collect_par(None, None) | 3 collect() | 4 collect_par(Some(t), None) |
+/// 5 collect_par(None, Some(n))      (0 and 3 are the sequential engine)
 enum Exec {
     Seq,
-    Par(usize, usize),
+    Plain,
+    Par(Option<usize>, Option<usize>),
 }
 fn exec_of(ex: i64, threads: i64, parts: i64) -> Option<Exec> {
+    if threads < 1 || parts < 0 {
+        return if ex == 0 { Some(Exec::Seq) } else { None };
+    }
+    let (t, n) = (threads as usize, parts as usize);
     match ex {
         0 => Some(Exec::Seq),
-        1 if threads >= 1 && parts >= 0 => Some(Exec::Par(threads as usize, parts as usize)),
+        1 => Some(Exec::Par(Some(t), Some(n))),
+        2 => Some(Exec::Par(None, None)),
+        3 => Some(Exec::Plain),
+        4 => Some(Exec::Par(Some(t), None)),
+        5 => Some(Exec::Par(None, Some(n))),
         _ => None,
+    }
+}
+fn collect_with<T: ironbeam::RFBound>(c: PCollection<T>, e: &Exec) -> anyhow::Result<Vec<T>> {
+    match e {
+        Exec::Seq => c.collect_seq(),
+        Exec::Plain => c.collect(),
+        Exec::Par(t, n) => c.collect_par(*t, *n),
     }
 }
 
@@ -166,10 +185,7 @@ fn run_shared(
             } else {
                 src.validate_values_with_mode(mode, given)
             };
-            match exec {
-                Exec::Seq => v.collect_seq(),
-                Exec::Par(t, n) => v.collect_par(Some(*t), Some(*n)),
-            }
+            collect_with(v, exec)
         }));
         finish(res, coll, |kv: &(i64, Rec)| json!([kv.0, kv.1.0]))
     } else {
@@ -197,10 +213,7 @@ fn run_shared(
             } else {
                 src.validate_with_mode(mode, given)
             };
-            match exec {
-                Exec::Seq => v.collect_seq(),
-                Exec::Par(t, n) => v.collect_par(Some(*t), Some(*n)),
-            }
+            collect_with(v, exec)
         }));
         finish(res, coll, |r: &Rec| json!(r.0))
     }
@@ -240,10 +253,7 @@ fn run_big(keyed: bool, m_mode: i64, hc: bool, exec: &Exec, n: i64, m: i64, t: i
                 } else {
                     src.validate_values_with_mode(mode, given)
                 };
-                let out = match exec {
-                    Exec::Seq => v.collect_seq(),
-                    Exec::Par(t, p) => v.collect_par(Some(*t), Some(*p)),
-                };
+                let out = collect_with(v, exec);
                 out.map(|rows| rows.into_iter().map(|(key, r)| (key, r.0)).collect())
             }))
         } else {
@@ -261,10 +271,7 @@ fn run_big(keyed: bool, m_mode: i64, hc: bool, exec: &Exec, n: i64, m: i64, t: i
                 } else {
                     src.validate_with_mode(mode, given)
                 };
-                let out = match exec {
-                    Exec::Seq => v.collect_seq(),
-                    Exec::Par(t, p) => v.collect_par(Some(*t), Some(*p)),
-                };
+                let out = collect_with(v, exec);
                 out.map(|rows| rows.into_iter().map(|r| ((r.0 / 4) % 7, r.0)).collect())
             }))
         };
@@ -314,6 +321,61 @@ fn pattern_rows(keyed: bool, len: i64, bits: i64) -> Value {
         })
         .collect();
     Value::Array(rows)
+}
+
+/// [entries, count] of a list of RecordErrors, in the format of `collector_json`
+fn view_json(records: &[RecordError], count: i64) -> Value {
+    let mut es: Vec<(Vec<i64>, i64, i64)> =
+        records.iter().map(|r| entry_json(r.record_id.as_ref(), &r.errors)).collect();
+    es.sort();
+    let arr: Vec<Value> = es
+        .into_iter()
+        .map(|(codes, p, i)| {
+            let mut v = vec![p, i];
+            v.extend(codes);
+            json!(v)
+        })
+        .collect();
+    json!([arr, count])
+}
+
+/// "views" kind: one log-mode run with a collector, then the collector read through EVERY public
+/// view: errors()/error_count() (the run's own observation), to_json() parsed back,
+/// write_to_file() read and parsed back, clone(), Display ("ErrorCollector(N errors)").
+/// out = [run observation, json view, file view, clone view, displayed count]; a view that
+/// cannot be produced or parsed is [[], -1].
+fn run_views(keyed: bool, exec: &Exec, rows: &Value) -> Value {
+    let coll = Arc::new(Mutex::new(ErrorCollector::new()));
+    let first = run_shared(keyed, 1, true, exec, rows, &coll);
+    let g = coll.lock().unwrap_or_else(std::sync::PoisonError::into_inner);
+    let bad = || json!([[], -1]);
+    let parse = |s: &str| serde_json::from_str::<Vec<RecordError>>(s).ok();
+    let via_json = match g.to_json().ok().as_deref().and_then(parse) {
+        Some(rs) => view_json(&rs, rs.len() as i64),
+        None => bad(),
+    };
+    let via_file = (|| {
+        let _ = std::fs::create_dir_all("/verif/run/C17/scratch");
+        let dir = tempfile::Builder::new()
+            .prefix("views-")
+            .tempdir_in("/verif/run/C17/scratch")
+            .or_else(|_| tempfile::tempdir())
+            .ok()?;
+        let path = dir.path().join("errors.json");
+        g.write_to_file(&path).ok()?;
+        let rs = parse(&std::fs::read_to_string(&path).ok()?)?;
+        Some(view_json(&rs, rs.len() as i64))
+    })()
+    .unwrap_or_else(bad);
+    let cl = g.clone();
+    let via_clone = view_json(cl.errors(), cl.error_count() as i64);
+    let shown = format!("{g}");
+    let displayed = shown
+        .strip_prefix("ErrorCollector(")
+        .and_then(|r| r.strip_suffix(" errors)"))
+        .and_then(|n| n.parse::<i64>().ok())
+        .unwrap_or(-1);
+    json!([first, via_json, via_file, via_clone, displayed])
 }
 
 // ------------------------------------------------------------------ tree kind
@@ -474,18 +536,11 @@ fn run_tree(input: &Value) -> Value {
                 let Some(exec) = exec_of(ex, th, parts) else { return json!(["invalid"]) };
                 let handle = handles[h as usize].clone();
                 let res: std::thread::Result<anyhow::Result<Vec<Value>>> =
-                    catch_unwind(AssertUnwindSafe(|| match (handle, &exec) {
-                        (H::U(c), Exec::Seq) => {
-                            c.collect_seq().map(|v| v.iter().map(|r| json!(r.0)).collect())
+                    catch_unwind(AssertUnwindSafe(|| match handle {
+                        H::U(c) => {
+                            collect_with(c, &exec).map(|v| v.iter().map(|r| json!(r.0)).collect())
                         }
-                        (H::U(c), Exec::Par(t, n)) => c
-                            .collect_par(Some(*t), Some(*n))
-                            .map(|v| v.iter().map(|r| json!(r.0)).collect()),
-                        (H::K(c), Exec::Seq) => {
-                            c.collect_seq().map(|v| v.iter().map(|kv| json!([kv.0, kv.1.0])).collect())
-                        }
-                        (H::K(c), Exec::Par(t, n)) => c
-                            .collect_par(Some(*t), Some(*n))
+                        H::K(c) => collect_with(c, &exec)
                             .map(|v| v.iter().map(|kv| json!([kv.0, kv.1.0])).collect()),
                     }));
                 out.push(match res {
@@ -597,6 +652,19 @@ fn run(kind: &str, input: &Value) -> Value {
             run_big(keyed, md, hc, &exec, n, m, t, k)
         }
         "tree" => run_tree(input),
+        "views" => {
+            // in = [keyed, exec, threads, partitions, rows]
+            let (Some(keyed), Some(ex), Some(t), Some(n), Some(rows)) =
+                (bit(0), int(1), int(2), int(3), input.get(4))
+            else {
+                return json!(["invalid"]);
+            };
+            let Some(exec) = exec_of(ex, t, n) else { return json!(["invalid"]) };
+            if input.as_array().map(Vec::len) != Some(5) {
+                return json!(["invalid"]);
+            }
+            run_views(keyed, &exec, rows)
+        }
         "row" => {
             let (Some(keyed), Some(len), Some(bits), Some(maxp)) = (bit(0), int(1), int(2), int(3))
             else {
@@ -610,7 +678,7 @@ fn run(kind: &str, input: &Value) -> Value {
             for m in 0..3 {
                 out.push(run_one(keyed, m, true, &Exec::Seq, &rows));
                 for n in 1..=maxp {
-                    out.push(run_one(keyed, m, true, &Exec::Par(2, n as usize), &rows));
+                    out.push(run_one(keyed, m, true, &Exec::Par(Some(2), Some(n as usize)), &rows));
                 }
             }
             Value::Array(out)
@@ -683,10 +751,7 @@ fn run(kind: &str, input: &Value) -> Value {
                         ),
                     };
                 }
-                match &exec {
-                    Exec::Seq => c.collect_seq(),
-                    Exec::Par(t, n) => c.collect_par(Some(*t), Some(*n)),
-                }
+                collect_with(c, &exec)
             }));
             finish(res, &coll, |kv: &(i64, Rec)| json!([kv.0, kv.1.0]))
         }
@@ -1154,6 +1219,11 @@ fn generate(seed: u64, tier: Tier, em: &mut Emitter) {
     // among the other element-wise builders
     gen_trees(seed, thorough, em);
 
+    // 4c. the other ways to collect (collect(), collect_par with None arguments), extreme
+    // partition / thread counts, the collector read through every public view, long
+    // combine_validations lists, long sequences of runs on one collector, every power of two
+    gen_more(seed, thorough, em);
+
     // 5. seeded random
     let mut rng = SplitMix64::new(seed ^ 0xC17);
     let n_run = if thorough { 20000 } else { 1500 };
@@ -1585,6 +1655,138 @@ fn gen_trees(seed: u64, thorough: bool, em: &mut Emitter) {
         let last = t.shapes.len() - 1;
         t.collect(last, i64::from(rng.chance(1, 2)), 2);
         t.emit(em, rng.range(1, 4), Value::Array(rows), &["tree", "random"]);
+    }
+}
+
+fn gen_more(seed: u64, thorough: bool, em: &mut Emitter) {
+    let pats = |len: usize| -> Vec<(Vec<u8>, &'static str)> {
+        vec![
+            ((0..len).map(|i| if i % 3 == 1 { 2 } else { 0 }).collect(), "third"),
+            ((0..len).map(|i| if i % 2 == 0 { 1 + (i % 3) as u8 } else { 0 }).collect(), "alt"),
+            ((0..len).map(|i| if i + 2 >= len { 3 } else { 0 }).collect(), "tail"),
+            ((0..len).map(|i| if i == len / 2 { 4 } else { 1 }).collect(), "all+empty"),
+        ]
+    };
+    // every collect entry point x mode x keyed, and extreme partition / thread counts
+    for len in [5usize, 8, 12, 33] {
+        for (pat, tag) in pats(len) {
+            for keyed in [false, true] {
+                for m in 0..3i64 {
+                    for ex in [2i64, 3, 4, 5] {
+                        emit_run(em, keyed, m, true, ex, 2, 3, &pat, 0, &["entry-points", tag]);
+                    }
+                    emit_run(em, keyed, m, m != 0, 3, 1, 0, &pat, 7, &["entry-points", tag]);
+                    for (t, n) in [(1i64, 2 * len as i64), (8, 64), (32, 1000), (3, 65_536), (64, 5)] {
+                        emit_run(em, keyed, m, true, 1, t, n, &pat, 0, &["extreme-config", tag]);
+                    }
+                }
+            }
+        }
+    }
+    // the collector through to_json / write_to_file / clone / Display
+    for len in [0usize, 1, 2, 5, 9, 16, 40] {
+        for (pat, tag) in pats(len) {
+            for keyed in [false, true] {
+                for (ex, t, n) in [(0i64, 1i64, 0i64), (1, 2, 3), (2, 2, 0)] {
+                    let nt = pat.iter().any(|b| *b != 0) && pat.iter().any(|b| *b == 0);
+                    em.case(
+                        "views",
+                        json!([i64::from(keyed), ex, t, n, rows_of(keyed, &pat, 0)]),
+                        nt,
+                        &["views", tag],
+                    );
+                }
+            }
+        }
+    }
+    // combine_validations: long lists (every length 5..40, powers of two up to 4096 and their
+    // neighbours), a part with a long error list, all-Ok lists
+    let mut lens: Vec<usize> = (5..=40).collect();
+    for p in [64usize, 128, 256, 512, 1024, 4096] {
+        lens.extend([p - 1, p, p + 1]);
+    }
+    lens.extend([100, 1000]);
+    for &len in &lens {
+        for variant in 0..4 {
+            let parts: Vec<Value> = (0..len)
+                .map(|i| match variant {
+                    0 => json!(null),                                         // all Ok
+                    1 => if i + 1 == len { json!([7 * i as i64]) } else { json!(null) }, // last fails
+                    2 => match i % 3 {                                        // mixed, some empty
+                        0 => json!(null),
+                        1 => json!([]),
+                        _ => json!([2 * i as i64, 2 * i as i64 + 1]),
+                    },
+                    _ => json!([i as i64]),                                   // all fail
+                })
+                .collect();
+            if len > 300 && variant == 0 {
+                continue;
+            }
+            em.case("combine", Value::Array(parts), variant != 0, &["combine", "long"]);
+        }
+    }
+    em.case(
+        "combine",
+        json!([null, (0..1000).collect::<Vec<i64>>(), [], (5000..5300).collect::<Vec<i64>>()]),
+        true,
+        &["combine", "long-part"],
+    );
+    // long sequences of runs on one collector: k = 6..40 log runs of 3 records, a fail-fast run
+    // and a clear in the middle
+    for keyed in [false, true] {
+        for k in [6usize, 8, 9, 16, 17, 32, 33, 40] {
+            let steps: Vec<Value> = (0..k)
+                .map(|j| {
+                    if j == k / 2 {
+                        json!([2, 1, j as i64 % 2, 2, rows_of(keyed, &[0, 1, 0], 10 * j as i64)])
+                    } else if j == k / 2 + 1 && k % 2 == 0 {
+                        json!([9])
+                    } else {
+                        json!([1, 1, j as i64 % 2, 2, rows_of(keyed, &[1, 0, 2], 10 * j as i64)])
+                    }
+                })
+                .collect();
+            em.case("multi", json!([i64::from(keyed), 2, steps]), true, &["multi", "long"]);
+        }
+    }
+    // every power of two (and its neighbours) through one operator, all modes: summaries only
+    let mut rng = SplitMix64::new(seed ^ 0xC17_B16);
+    let mut sizes: Vec<i64> = Vec::new();
+    for p in [16i64, 32, 64, 128, 256, 512, 1024, 2048, 4096] {
+        sizes.extend([p - 1, p, p + 1]);
+    }
+    sizes.push(20);
+    let plist = [1i64, 2, 3, 4, 7, 8, 16, 64];
+    for (i, &n) in sizes.iter().enumerate() {
+        for keyed in [false, true] {
+            let parts = plist[(i + usize::from(keyed)) % plist.len()];
+            let ex = [1i64, 2, 5, 4][i % 4];
+            let mk = |md: i64, hc: bool, ex: i64, parts: i64, m: i64, t: i64, k: i64| {
+                json!([i64::from(keyed), md, i64::from(hc), ex, 3, parts, n, m, t, k])
+            };
+            em.case("big", mk(1, true, ex, parts, 3, 1, 1), true, &["big", "pow2", "log"]);
+            em.case("big", mk(1, true, 0, 0, 2, 1, 2), true, &["big", "pow2", "log-seq-reuse"]);
+            let md = if i % 2 == 0 { 0 } else { 2 };
+            // fail-fast: all valid (completes) on odd i, skip: mixed on even i
+            let (m, t) = if md == 2 { (1, 1) } else { (3, 1) };
+            em.case("big", mk(md, i % 3 == 0, ex, parts, m, t, 1), md == 0, &["big", "pow2", "other"]);
+            if rng.chance(1, 4) {
+                // fail-fast where exactly the records behind a random position are invalid
+                let pos = rng.range(0, n - 1);
+                em.case("big", mk(2, true, ex, parts, n, pos + 1, 1), pos + 1 < n, &["big", "pow2", "ff-tail"]);
+            }
+        }
+    }
+    if thorough {
+        for keyed in [false, true] {
+            em.case(
+                "big",
+                json!([i64::from(keyed), 1, 1, 1, 3, 16, 65_536, 3, 1, 1]),
+                true,
+                &["big", "pow2", "65536"],
+            );
+        }
     }
 }
 
